@@ -156,3 +156,92 @@ Proof.
     split; [rewrite <- Ee; exact He|]. split; [rewrite <- Hp; symmetry; apply strip_path; exact Hse|].
     split; [rewrite <- Hi; symmetry; apply strip_is_same_l; exact Hse|]. auto.
 Qed.
+
+(** * Removed entries reach the final list unchanged (what rule/dependency then runs on).
+    GlobFinder lists every valid rule of the HEAD tree, so a non-Removed branch entry without a rule error always finds its
+    glob entry, which comes before anything that was appended: appended entries are never overwritten. *)
+Definition covered (glob : list entry) (e : entry) : Prop :=
+  e_state e = Removed \/ e_rerr e = true \/
+  exists g0, In g0 glob /\ e_path e = e_path g0 /\ is_same e g0 = true.
+
+Lemma is_same_rerr e g : e_rerr e = true -> is_same e g = false.
+Proof. intro H. unfold is_same. rewrite H. simpl. rewrite andb_false_r. reflexivity. Qed.
+
+Lemma update_first_rerr e all : e_rerr e = true -> update_first e all = None.
+Proof.
+  intro H. induction all as [|x r IH]; simpl; auto.
+  rewrite (is_same_rerr e x H), andb_false_r. rewrite IH. reflexivity.
+Qed.
+
+Lemma update_first_app_l e : forall G X,
+  (exists g, In g G /\ e_path e = e_path g /\ is_same e g = true) ->
+  exists G', update_first e (G ++ X) = Some (G' ++ X) /\ map strip G' = map strip G.
+Proof.
+  induction G as [|x r IH]; intros X (g & Hin & Hp & Hs); [destruct Hin|]. simpl.
+  destruct (String.eqb (e_path e) (e_path x) && is_same e x) eqn:E.
+  - exists (set_state x (e_state e) (e_mod e) :: r). split; auto.
+  - destruct Hin as [->|Hin].
+    + rewrite Hp, String.eqb_refl, Hs in E. discriminate.
+    + destruct (IH X (ex_intro _ g (conj Hin (conj Hp Hs)))) as (G' & HU & HM).
+      rewrite HU. exists (x :: G'). split; auto. simpl. rewrite HM. reflexivity.
+Qed.
+
+Lemma in_map_strip g0 (G glob : list entry) :
+  map strip G = map strip glob -> In g0 glob -> exists g, In g G /\ strip g = strip g0.
+Proof.
+  intros HM Hin. assert (H : In (strip g0) (map strip G)) by (rewrite HM; apply in_map; exact Hin).
+  apply in_map_iff in H. destruct H as (g & Hs & Hg). exists g. auto.
+Qed.
+
+Lemma merge_keeps_appended glob : forall branch G X,
+  map strip G = map strip glob ->
+  (forall e, In e branch -> covered glob e) ->
+  exists G' X', fold_left merge_one branch (G ++ X) = G' ++ X ++ X' /\ map strip G' = map strip glob /\
+                (forall e, In e branch -> e_state e = Removed -> In e X').
+Proof.
+  induction branch as [|e r IH]; intros G X HM Hcov; simpl.
+  - exists G, []. rewrite app_nil_r. split; auto. split; auto; try (intros e []).
+  - assert (Hr : forall x, In x r -> covered glob x) by (intros x Hx; apply Hcov; right; exact Hx).
+    destruct (Hcov e (or_introl eq_refl)) as [Hrem|[Herr|(g0 & Hg0 & Hp & Hs)]].
+    + (* Removed: appended *)
+      unfold merge_one at 2. rewrite Hrem. simpl. rewrite <- app_assoc.
+      destruct (IH G (X ++ [e]) HM Hr) as (G' & X' & HF & HM' & HX).
+      exists G', ([e] ++ X'). rewrite HF. rewrite <- !app_assoc. split; auto. split; auto.
+      intros x [<-|Hx] Hst; [left; reflexivity|right; apply HX; auto].
+    + (* rule error: never matches anything, appended *)
+      unfold merge_one at 2. destruct (state_eqb (e_state e) Removed) eqn:Es.
+      * rewrite <- app_assoc.
+        destruct (IH G (X ++ [e]) HM Hr) as (G' & X' & HF & HM' & HX).
+        exists G', ([e] ++ X'). rewrite HF. rewrite <- !app_assoc. split; auto. split; auto.
+        intros x [<-|Hx] Hst; [left; reflexivity|right; apply HX; auto].
+      * rewrite (update_first_rerr e _ Herr). rewrite <- app_assoc.
+        destruct (IH G (X ++ [e]) HM Hr) as (G' & X' & HF & HM' & HX).
+        exists G', ([e] ++ X'). rewrite HF. rewrite <- !app_assoc. split; auto. split; auto.
+        intros x [<-|Hx] Hst; [left; reflexivity|right; apply HX; auto].
+    + (* covered by a glob entry: only the glob part changes *)
+      unfold merge_one at 2. destruct (state_eqb (e_state e) Removed) eqn:Es.
+      * rewrite <- app_assoc.
+        destruct (IH G (X ++ [e]) HM Hr) as (G' & X' & HF & HM' & HX).
+        exists G', ([e] ++ X'). rewrite HF. rewrite <- !app_assoc. split; auto. split; auto.
+        intros x [<-|Hx] Hst; [left; reflexivity|right; apply HX; auto].
+      * destruct (in_map_strip g0 G glob HM Hg0) as (g & Hg & Hsg).
+        assert (Hex : exists g, In g G /\ e_path e = e_path g /\ is_same e g = true).
+        { exists g. split; auto. split.
+          - rewrite Hp. symmetry. apply strip_path. exact Hsg.
+          - rewrite <- Hs. apply strip_is_same_r. exact Hsg. }
+        destruct (update_first_app_l e G X Hex) as (G1 & HU & HM1). rewrite HU.
+        assert (HM1' : map strip G1 = map strip glob) by congruence.
+        destruct (IH G1 X HM1' Hr) as (G' & X' & HF & HM' & HX).
+        exists G', X'. split; auto. split; auto.
+        intros x [<-|Hx] Hst; [|apply HX; auto].
+        exfalso. apply state_eqb_false in Es. contradiction.
+Qed.
+
+Theorem removed_reaches_final glob cs e :
+  (forall x, In x (branch_entries cs) -> covered glob x) ->
+  In e (branch_entries cs) -> e_state e = Removed -> In e (find glob cs).
+Proof.
+  intros Hcov Hin Hst. unfold find, merge.
+  destruct (merge_keeps_appended glob (branch_entries cs) glob [] eq_refl Hcov) as (G' & X' & HF & _ & HX).
+  rewrite app_nil_r in HF. rewrite HF. simpl. apply in_or_app. right. apply HX; auto.
+Qed.
